@@ -126,13 +126,17 @@ fn layered(xref_stream: bool) -> Vec<u8> {
         ("Resources", d(vec![("Font", d(vec![("F1", r(7))]))]))])});
     let mut o1 = vec![
         json!({"n": 1, "g": 0, "value": d(vec![("Type", n("Catalog")), ("Pages", r(2))])}),
-        json!({"n": 2, "g": 0, "value": d(vec![("Type", n("Pages")), ("Kids", json!([r(3), r(5)])), ("Count", json!(2))])}),
+        json!({"n": 2, "g": 0, "value": d(vec![("Type", n("Pages")), ("Kids", if xref_stream { json!([r(3), r(5)]) } else { r(8) }), ("Count", json!(2))])}),
         page(3, 4),
         stream(4, vec![], c.clone()),
         page(5, 6),
         stream(6, vec![], c.clone()),
         json!({"n": 7, "g": 0, "value": d(vec![("Type", n("Font")), ("Subtype", n("Type1")), ("BaseFont", n("Courier"))])}),
     ];
+    if !xref_stream {
+        // the page tree root reaches its kids through an indirect array
+        o1.push(json!({"n": 8, "g": 0, "value": [r(3), r(5)]}));
+    }
     let mut o2 = vec![json!({"n": 2, "g": 0, "value": d(vec![("Type", n("Pages")), ("Kids", json!([r(3)])), ("Count", json!(1))])})];
     if xref_stream {
         for o in o1.iter_mut().chain(o2.iter_mut()) {
@@ -315,6 +319,54 @@ pub fn slots(b: &[u8]) -> Vec<(usize, usize, String)> {
     out
 }
 
+/// end offsets of the data of unfiltered, printable streams (content streams in the clear)
+pub fn stream_ends(b: &[u8]) -> Vec<usize> {
+    let mut out = Vec::new();
+    let mut i = 0;
+    while i + 7 < b.len() {
+        if b[i..].starts_with(b"stream\n") && !b[i.saturating_sub(3)..i].ends_with(b"end") {
+            let s = i + 7;
+            if let Some(e) = (s..b.len()).find(|k| b[*k..].starts_with(b"\nendstream")) {
+                let dict_from = (0..i).rev().find(|k| b[*k..].starts_with(b" obj")).unwrap_or(0);
+                let filtered = (dict_from..i).any(|k| b[k..].starts_with(b"/Filter"));
+                if !filtered && e > s + 12 && b[s..e].iter().all(|c| *c == 10 || *c == 13 || (32..127).contains(c)) {
+                    out.push(e);
+                }
+                i = e;
+            }
+        }
+        i += 1;
+    }
+    out
+}
+
+/// (start, end, object number) of the body of every indirect object that is not a stream: the bytes between
+/// `N G obj` and `endobj`
+pub fn object_bodies(b: &[u8]) -> Vec<(usize, usize, u32)> {
+    let mut out = Vec::new();
+    let mut i = 0;
+    while i + 5 < b.len() {
+        if b[i..].starts_with(b" obj\n") || b[i..].starts_with(b" obj ") || b[i..].starts_with(b" obj<") {
+            // object number: two integers before
+            let mut j = i;
+            while j > 0 && b[j - 1].is_ascii_digit() { j -= 1; }
+            let mut k = j.saturating_sub(1);
+            while k > 0 && b[k - 1].is_ascii_digit() { k -= 1; }
+            let num: u32 = std::str::from_utf8(&b[k..j.saturating_sub(1)]).ok().and_then(|s| s.parse().ok()).unwrap_or(0);
+            let s = i + 4;
+            if let Some(e) = (s..b.len()).find(|x| b[*x..].starts_with(b"endobj")) {
+                let body = &b[s..e];
+                if num > 0 && !body.windows(6).any(|w| w == b"stream") {
+                    out.push((s, e, num));
+                }
+                i = e;
+            }
+        }
+        i += 1;
+    }
+    out
+}
+
 fn bases_cmd(a: &Args) {
     let mut out = Out::file(a.req("out"));
     for (name, b) in bases() {
@@ -323,7 +375,9 @@ fn bases_cmd(a: &Args) {
         for (_, _, c) in &sl {
             *classes.entry(c.clone()).or_insert(0u32) += 1;
         }
-        out.line(&json!({"name": name, "len": b.len(), "nslots": sl.len(), "classes": classes,
+        let (tails, bodies) = (stream_ends(&b), object_bodies(&b));
+        out.line(&json!({"name": name, "len": b.len(), "nslots": sl.len(), "classes": classes, "ntails": tails.len(), "nbodies": bodies.len(),
+                         "tails": tails, "bodies": bodies.iter().map(|(s, e, n)| json!([s, e, n])).collect::<Vec<_>>(),
                          "slots": sl.iter().map(|(o, l, c)| json!({"at": o, "len": l, "class": c})).collect::<Vec<_>>(), "bytes": b}));
     }
     out.flush();
@@ -372,6 +426,27 @@ fn apply(base: &[u8], sl: &[(usize, usize, String)], faults: &[Value], seed: u64
                 let mut v = if f["header"].as_bool().unwrap_or(false) { b"%PDF-1.7\n".to_vec() } else { Vec::new() };
                 v.extend(rng.bytes(len));
                 return Some(v);
+            }
+            "tail" => {
+                // the last bytes of an unfiltered content stream overwritten (the stream keeps its length)
+                let ends = stream_ends(base);
+                let e = *ends.get(f["stream"].as_u64()? as usize % ends.len().max(1))?;
+                let v = f["val"].as_str()?.as_bytes().to_vec();
+                edits.push((e - v.len(), v.len(), v));
+            }
+            "body" => {
+                // the body of a non-stream object replaced
+                let bodies = object_bodies(base);
+                let (s0, e0, num) = *bodies.get(f["obj"].as_u64()? as usize % bodies.len().max(1))?;
+                let other = bodies.get((f["obj"].as_u64()? as usize + 1) % bodies.len().max(1)).map(|x| x.2).unwrap_or(num);
+                let v = match f["val"].as_str()? {
+                    "self" => format!("\n{num} 0 R\n"),
+                    "next" => format!("\n{other} 0 R\n"),
+                    "deep" => format!("\n{}{}\n", "[".repeat(3000), "]".repeat(3000)),
+                    "deepdict" => format!("\n{}{}\n", "<</A ".repeat(2000), ">>".repeat(2000)),
+                    lit => format!("\n{lit}\n"),
+                };
+                edits.push((s0, e0 - s0, v.into_bytes()));
             }
             "keyword" => {
                 // the k-th occurrence of a structural keyword replaced by another token
